@@ -1,7 +1,7 @@
 #!/bin/bash
 # confirm_seed.sh <Cxx> <n> : in the scratch worktree of that agent: patch applies, builds (also capi), demo fails with it,
 # the pinned suite still passes with it (failures re-run alone), demo passes without it.
-ID=$1; N=$2; D=/tmp/seed/$ID; WT=$D/wt; LOG=$D/confirm-$N.log
+ID=$1; N=$2; D=${SEEDBASE:-/tmp/seed}/$ID; WT=$D/wt; LOG=$D/confirm-$N.log
 export CARGO_TARGET_DIR=$D/target CARGO_NET_OFFLINE=true
 exec >"$LOG" 2>&1
 cd "$WT" || exit 2
